@@ -1726,6 +1726,53 @@ def _all_functions(tree: ast.AST) -> dict:
     return out
 
 
+def undo_import_aliases(mod) -> list:
+    """``from forml.io import layout as laymod`` re-spelled as ``... as lay``: a module-level import alias that denotes what a
+    differently named alias denoted in the reference module (and nothing else uses either name) gets the reference name back
+    throughout the module.  Returns [(current alias, reference alias)]."""
+    ref_src = pinned_sources().get(mod.name)
+    if ref_src is None or ref_src == mod.source:
+        return []
+    from . import core
+
+    try:
+        ref_mod = core.Module.__new__(core.Module)
+        ref_mod.name, ref_mod.is_pkg = mod.name, mod.is_pkg
+        ref_mod.tree = ast.parse(ref_src)
+        ref_imports: dict = {}
+        core.Module.record_imports(ref_mod, ref_mod.tree, ref_imports, True)
+    except Exception:  # pylint: disable=broad-except
+        return []
+    cur_imports = dict(mod.imports)
+    by_target_ref: dict = {}
+    for alias, target in ref_imports.items():
+        by_target_ref.setdefault(target, []).append(alias)
+    done = []
+    top_names = {x.id for x in ast.walk(mod.tree) if isinstance(x, ast.Name)} | {a.arg for x in ast.walk(mod.tree) if isinstance(x, ast.arg) for a in [x]}
+    for alias, target in sorted(cur_imports.items()):
+        if alias in ref_imports:
+            continue
+        wanted = [a for a in by_target_ref.get(target, []) if a not in cur_imports]
+        if len(wanted) != 1:
+            continue
+        old = wanted[0]
+        if old in top_names:
+            continue  # the reference alias now names something else
+        # rename: import statements and every load of the alias (locals shadowing the alias would have shadowed it before too)
+        shadowed = any(isinstance(x, ast.Name) and x.id == alias and isinstance(x.ctx, (ast.Store, ast.Del)) for x in ast.walk(mod.tree)) or any(isinstance(x, ast.arg) and x.arg == alias for x in ast.walk(mod.tree))
+        if shadowed:
+            continue
+        for x in ast.walk(mod.tree):
+            if isinstance(x, ast.Name) and x.id == alias:
+                x.id = old
+            elif isinstance(x, (ast.Import, ast.ImportFrom)):
+                for a in x.names:
+                    if (a.asname or a.name) == alias:
+                        a.asname = old if old != a.name else None
+        done.append((alias, old))
+    return done
+
+
 def undo_renames(mod, sigs: typing.Optional[SignatureIndex] = None) -> list:
     """A function of the reference tree that is gone while a new function of the *same scope* has the same normal form
     (its own name aside) was renamed: it gets its reference name back, together with every reference to the new name in the
